@@ -157,7 +157,11 @@ def replay(core, mod, path):
     with open(path) as f:
         rep = json.load(f)
     spec = rep["spec"]
-    out = core.execute_isolated(mod, spec, keep_log=10000)
+    if rep.get("phase"):
+        mod_exec = mod.PHASE_MODULES[rep["phase"]]
+    else:
+        mod_exec = mod
+    out = core.execute_isolated(mod_exec, spec, keep_log=10000)
     sig = core.outcome_sig(out)
     for line in out.get("log") or []:
         print("  " + line)
@@ -234,21 +238,24 @@ def batch(core, mod, prop, seed, n, args, scratch, t0):
         seen_sigs.add(v["sig"])
         if len(replay_paths) >= 3:
             break
-        vmod = getattr(mod, "ENUM_MODULE", None) if v.get("phase") == "enum" else mod
+        phase = v.get("phase")
+        vmod = mod.PHASE_MODULES[phase] if phase else mod
         spec = core.make_spec(vmod, seed, idx)
-        first = core.execute_isolated(mod, spec)
+        first = core.execute_isolated(vmod, spec)
         sig = core.outcome_sig(first)
         if sig is None:
             print(f"HARNESS-ERROR: run {idx} reported {v['sig']} in the batch but not when re-executed alone "
                   f"(outcome={first['outcome']})", file=sys.stderr)
             return 2
-        small = core.minimise(mod, spec, sig, isolated=True, budget=getattr(mod, "SHRINK_BUDGET", 300))
-        fin = core.execute_isolated(mod, small, keep_log=10000)
+        if getattr(vmod, "simplify", None) is None and hasattr(mod, "simplify"):
+            vmod.simplify = mod.simplify
+        small = core.minimise(vmod, spec, sig, isolated=True, budget=getattr(mod, "SHRINK_BUDGET", 300))
+        fin = core.execute_isolated(vmod, small, keep_log=10000)
         rdir = os.environ.get("VERIF_REPLAY_DIR") or os.path.join(HERE, "replays")
         os.makedirs(rdir, exist_ok=True)
         path = os.path.join(rdir, f"{prop}-{seed}-{idx}.json")
         with open(path, "w") as f:
-            json.dump({"property": prop, "verif_seed": seed, "run_index": idx, "signature": sig,
+            json.dump({"property": prop, "verif_seed": seed, "run_index": idx, "signature": sig, "phase": phase,
                        "detail": (fin.get("violation") or {}).get("detail"),
                        "original_ops": len(spec["ops"]), "minimised_ops": len(small["ops"]),
                        "digest": fin.get("digest"), "spec": small, "event_log": fin.get("log")},
